@@ -7,6 +7,8 @@ import os, re, subprocess, sys, json, shutil
 prop, var = sys.argv[1], sys.argv[2]
 wt = f"/tmp/wt2-{prop}" if var in "CD" else f"/tmp/wt-{prop}"
 out = f"/tmp/seedout2-{prop}" if var in "CD" else f"/tmp/seedout-{prop}"
+if var in "MN":
+    wt = f"/tmp/wt7-{prop}"; out = f"/tmp/seedout7-{prop}"
 if prop.startswith("T"):
     wt = f"/tmp/wt3-{prop}"; out = f"/tmp/seedout3-{prop}"
 if prop.startswith("S"):
